@@ -353,7 +353,7 @@ def c04(tier='quick'):
             for step in ('assign', 'inc'):
                 stepst = Assign(Var('i', I32), Bin('+', Var('i', I32), Lit(1, I32))) if step == 'assign' else IncDec(Var('i', I32), '++')
                 body = [mk, Let('s', I64, Lit(0, I64)), Let('i', I32, Lit(0, I32)),
-                        While(Cmp('<', Var('i', I32), Lit(n, I32)), [OpAssign(Var('s', I64), '+', Bin('*', Cast(Index(a, Var('i', I32)), I64), Cast(Bin('+', Var('i', I32), Lit(1, I32)), I64))), stepst]),
+                        While(Cmp('<', Var('i', I32), Lit(n, I32)), [OpAssign(Var('s', I64), '+', (Bin('*', Cast(Index(a, Var('i', I32)), I64), Cast(Bin('+', Var('i', I32), Lit(1, I32)), I64)) if n <= 3 else Bin('-', Cast(Index(a, Var('i', I32)), I64), Cast(Var('i', I32), I64)))), stepst]),
                         Return(Var('s', I64))]
                 out.append(Template('c04/loop_read/%s/%s' % (tag, step), fn3(body), family='c04-loop', expect='any', unroll=n + 2))
                 body = [mk, Let('i', I32, Lit(0, I32)),
